@@ -1068,7 +1068,7 @@ def position_dumps(run, pid, tier):
     cyc = "g1f3 g8f6 f3g1 f6g8"
     reps = ["position startpos moves " + " ".join([cyc] * 4), "position startpos moves " + " ".join([cyc] * 6) + " g1f3",
             "position startpos moves g1f3", "position startpos moves g1f3 g8f6 f3g1 f6g8", "position startpos",
-            "position startpos moves g1f3 g8f6 f3g1 f6g8 g1f3 g8f6 f3g1 f6g8", "position startpos moves b1c3 b8c6 c3b1 c6b8 b1c3 c6b8",
+            "position startpos moves g1f3 g8f6 f3g1 f6g8 g1f3 g8f6 f3g1 f6g8", "position startpos moves b1c3 b8c6 c3b1 c6b8 b1c3 b8c6",
             "position startpos moves e2e4 e7e5 g1f3 g8f6 f3g1 f6g8 g1f3 g8f6 f3g1 f6g8 d2d4"]
     sessions, traces = [], []
     d = R.trace_dir(pid + "-dump")
